@@ -32,9 +32,12 @@ type LunarYear struct {
 }
 
 func NewLunarYear(lunarYear int) *LunarYear {
+	verifTrace("gate", lunarYear)
 	lock.Lock()
+	verifTrace("acquired", lunarYear)
 	var year *LunarYear
 	if nil == CACHE_YEAR || CACHE_YEAR.year != lunarYear {
+		verifTrace("miss", lunarYear)
 		year = new(LunarYear)
 		year.year = lunarYear
 		year.months = list.New()
@@ -51,9 +54,12 @@ func NewLunarYear(lunarYear int) *LunarYear {
 		year.zhiIndex = yearZhiIndex
 		year.compute()
 		CACHE_YEAR = year
+		verifTrace("published", lunarYear)
 	} else {
+		verifTrace("hit", lunarYear)
 		year = CACHE_YEAR
 	}
+	verifTrace("released", lunarYear)
 	lock.Unlock()
 	return year
 }
